@@ -68,6 +68,9 @@ EXTRA = [
     'name , size from sub , e order by size desc , name', 'ext , count(*) from . , sub group by ext order by ext',
     'name , year(curdate()) , length(upper(name)) from . limit 2', 'name , concat(curdate() , name) from . limit 2',
     'name from . where ( length(lower(name)) > 3 and ( size > 1 or year(curdate()) > 2000 ) )',
+    # words that are also command-line options, inside a query (a literal, a column, a root, a leading minus)
+    'name from . where name = help.txt or name like %version% or name != nocolor', 'name , exif_version from sub limit 2',
+    '-hardlinks , name from . limit 3', '-inode , name from sub', "name from . where name = 'no-color' or name = '--help'",
     'name from su.* regexp', 'name from [s]ub maxdepth 1 regexp', 'name , size from e , su.* regexp dfs where name regexp ^a order by 1',
 ]
 
@@ -356,6 +359,10 @@ def eval_group(env, group, tier):
     base_argv = [' '.join(q)]
     only = group.get('only')
     cli = only is not None
+    # queries that contain the letters of a command-line option are observed through the real command line (the batch
+    # path enters below main's option handling)
+    if re.search(r'help|version|nocolor|no-color', base_argv[0], re.I) or base_argv[0].startswith('-'):
+        cli = True
     o0, p0, rows0 = observe(env, b, base_argv, cli)
     outs = []
     agg = {'cases': 0, 'nt': 0, 'sigs': set(), 'trans': 0, 'layer': 'renderings', 'samples': []}
